@@ -45,7 +45,7 @@ TT = 'chainables.tree'
 
 
 def run(ctx: Ctx):
-  for r in (r1, r2, r3, r4, r5, r6, r8, r9):
+  for r in (r1, r2, r3, r4, r5, r6, r8, r9, r10):
     ctx.guard(r)
   from mlmverif.props import c03
   ctx.include('R-C02-7', 'every sliced aggregate sees every slice: the slices of'
@@ -482,6 +482,63 @@ def r9(ctx: Ctx):
   ctx.floor(rule, 2, n)
 
 
+def r10(ctx: Ctx):
+  rule = 'R-C02-10'
+  ctx.rule(rule, '"the aggregate result a pipeline reports for a stream equals applying the'
+           ' aggregate function directly": every evaluation starts from FRESH aggregate states'
+           ' — each create_state() in transform.py / tree_fns.py derives what it returns from'
+           ' create_state()/new calls made in that very invocation; it never hands out (a'
+           ' shallow copy of) state objects kept on the runner (attribute, cached_property).'
+           ' Accumulators are updated in place, so a shared initial state makes the second'
+           ' stream on the same runner start from the totals of the first')
+  repo = ctx.repo
+  n = 0
+  for mod in (TR, TF):
+    for ci in repo.module(mod).classes.values():
+      fi = ci.methods.get('create_state')
+      if fi is None:
+        continue
+      rets = [x for x in walk_no_nested(fi.node) if isinstance(x, ast.Return) and x.value is not None]
+      if not rets:
+        continue
+      n += 1
+      # locals of the function (generator expressions etc.) count as made here
+      local_defs = {t.id: x.value for x in walk_no_nested(fi.node) if isinstance(x, ast.Assign)
+                    for t in x.targets if isinstance(t, ast.Name)}
+
+      def fresh(e, depth=0):
+        """Does e (transitively through locals) make its states by calls in this invocation?"""
+        if depth > 3:
+          return False
+        calls = [c for c in ast.walk(e) if isinstance(c, ast.Call) and isinstance(c.func, ast.Attribute)
+                 and c.func.attr in ('create_state', 'new', 'make')]
+        calls += [c for c in ast.walk(e) if isinstance(c, ast.Call) and isinstance(c.func, ast.Name) and (
+            c.func.id[:1].isupper() or c.func.id in ('copy', 'deepcopy'))]
+        if calls:
+          return True
+        return any(isinstance(y, ast.Name) and y.id in local_defs and fresh(local_defs[y.id], depth + 1)
+                   for y in ast.walk(e))
+
+      def kept(e):
+        """Reads of self attributes that are not methods being called (state kept on the object)."""
+        out = []
+        for y in ast.walk(e):
+          if is_self_attr(y) and y.attr.startswith('_') and 'state' in y.attr:
+            out.append(y)
+        return out
+
+      bad = [r_ for r_ in rets if not fresh(r_.value) or kept(r_.value)]
+      if bad:
+        ctx.fail(rule, fi, f'{ci.name}.create_state makes fresh states on every call',
+                 f'`{unparse(bad[0])[:70]}` returns states that were not created in this call (kept on the'
+                 ' runner): accumulators are updated in place, so the next iterate()/__call__ on the same'
+                 ' runner continues from the previous stream\'s totals — only the unsliced result goes stale,'
+                 ' slice states are still created per run', node=bad[0])
+      else:
+        ctx.ok(rule, fi, f'{ci.name}.create_state: states created per call', rets[0])
+  ctx.floor(rule, 3, n)
+
+
 def r5(ctx: Ctx):
   rule = 'R-C02-5'
   ctx.rule(rule, 'slices do not inherit each other\'s mask configuration: when'
@@ -651,6 +708,10 @@ from mlmverif.selfcheck import B, OK  # noqa: E402
 _T = 'chainables/transform.py'
 _F = 'chainables/tree_fns.py'
 VARIANTS = [
+    B('runner-caches-initial-state', 'chainables/transform.py',
+      '  def create_state(self) -> _AggState:\n    return {\n        MetricKey(key): tree_fn.create_state()\n        for key, tree_fn in self.agg_fns.items()\n    }',
+      '  @functools.cached_property\n  def _initial_state(self) -> _AggState:\n    return {\n        MetricKey(key): tree_fn.create_state()\n        for key, tree_fn in self.agg_fns.items()\n    }\n\n  def create_state(self) -> _AggState:\n    return dict(self._initial_state)',
+      'R-C02-10'),
     B('nested-mask-false-by-truthiness', 'chainables/tree.py',
       '        result.append(elem)\n      elif mask == False:  # pylint: disable=singleton-comparison',
       '        result.append(elem)\n      elif not mask:', 'R-C02-9'),
